@@ -27,11 +27,35 @@ ASSUMPTIONS = [
 ]
 
 
+@st.composite
+def symmetric_composite_case(draw, mode):
+    """Compositions and sums whose operands are all DECLARED symmetric (diagonal, scalar, Toeplitz, HWP, identity) but
+    do not commute: the transpose of the composite is not the composite."""
+    G = gen.GenCtx(mode, cap=16, allow_cg=False)
+    if draw(st.booleans()):
+        S = St.leaf([draw(st.integers(2, 5))] if draw(st.booleans()) else [draw(st.integers(1, 2)), draw(st.integers(2, 4))],
+                    draw(st.sampled_from(gen.dtypes(mode))))
+        kinds = ['diag', 'diag', 'toeplitz', 'toeplitz', 'hom', 'id']
+    else:
+        S = draw(gen.structure(mode, cap=12, kinds=('stokes', 'tuple', 'dict', 'related'), min_rank=1))
+        kinds = ['diag', 'diag', 'hom', 'id'] + (['hwp'] if S['t'] == 'stokes' else [])
+    n = draw(st.integers(2, 4))
+    opsl = [gen.leaf_operand(draw, G, S, square=True, kind=draw(st.sampled_from(kinds))) for _ in range(n)]
+    if draw(st.integers(0, 3)) == 0:
+        expr = {'k': 'add', 'ops': opsl, 'via': draw(st.sampled_from(['list', 'plus'])), 'tree': gen._ptree(draw, n)}
+    else:
+        expr = {'k': 'compose', 'ops': opsl, 'via': draw(st.sampled_from(['list', 'matmul'])), 'tree': gen._ptree(draw, n)}
+    return {'defs': G.defs, 'expr': expr, 'probe': draw(st.lists(st.integers(0, 1000), min_size=8, max_size=8))}
+
+
 def strategy(tier, mode):
     if tier == 'quick':
-        return gen.expression_case(mode, cap=20, max_len=4, depth=2, allow_cg=False)
-    return st.one_of(gen.expression_case(mode, cap=20, max_len=4, depth=2, allow_cg=False),
-                     gen.expression_case(mode, cap=36, max_len=7, depth=3, allow_cg=False))
+        return st.one_of(*([gen.expression_case(mode, cap=20, max_len=4, depth=2, allow_cg=False)] * 5),
+                         symmetric_composite_case(mode))
+    return st.one_of(*([gen.expression_case(mode, cap=20, max_len=4, depth=2, allow_cg=False)] * 3),
+                     gen.expression_case(mode, cap=36, max_len=7, depth=3, allow_cg=False),
+                     gen.expression_case(mode, cap=36, max_len=7, depth=3, allow_cg=False),
+                     symmetric_composite_case(mode))
 
 
 def check(case, mode):
